@@ -106,3 +106,10 @@ Lemma uint_of_le_inj a b : wfb a -> wfb b -> length a = length b -> uint_of_le a
 Proof.
   intros Ha Hb Hl He. rewrite <- (enc_le_uint a Ha), <- (enc_le_uint b Hb). now rewrite Hl, He.
 Qed.
+
+Lemma slice_mid {A} (a b c : list A) n : n = length b -> slice (a ++ b ++ c)%list (length a) n = b.
+Proof.
+  intros ->. unfold slice. rewrite skipn_app, skipn_all, Nat.sub_diag. cbn [skipn app].
+  rewrite firstn_app, firstn_all, Nat.sub_diag. cbn [firstn]. now rewrite app_nil_r.
+Qed.
+
